@@ -253,7 +253,32 @@ def ob_multiply_value(n, lemma):
                 return Replay([kline, ref], {"kind": "lines_differ_mod", "line": 0, "other": 1, "mod": M}, f"{mod}::mds_multiply/residue",
                               "mds_multiply differs (as residues) from the product with the public MDS constant")
             return None
-        return Built(qs, short_fns(ex) + [f"abstracted: {x}" for x in ex.abstracted], [val], lift,
+        def relift():
+            # a model of the abstracted (lemma-level) query names frequency-domain results, not a state: ask the un-abstracted
+            # question "some row of mds_multiply(x) is not congruent to the matrix-vector product" for a canonical state x
+            exd, xsd, outsd = _multiply_terms(prog, n)
+            parts, locate = [], []
+            for i in range(n):
+                D = intc(0)
+                for j in range(n):
+                    D = D + nat(xsd[j].t) * mat[i][j]
+                Rv = nat(outsd[i])
+                t = Or(*[Eq(Rv + k * M, D) for k in range(0, sum(mat[i]) + 2)])
+                parts.append(t)
+                locate.append((f"row{i}", t))
+            qd = Query("direct_value", [], And(*parts), xb, locate=locate, timeout=120)
+            # cheaper search spaces first: states with a single non-zero position (the other positions fixed to zero by assumptions)
+            singles = [Query(f"direct_value_single{j}", [Eq(nat(xsd[k].t), intc(0)) for k in range(n) if k != j], And(*parts), xb,
+                             locate=locate, timeout=120) for j in range(n)]
+
+            def lift2(q, env):
+                vals = [env.get(nm, 0) for nm in names]
+                return Replay([f"{natp} mul " + " ".join(map(str, vals)), f"{natp} mul_ref " + " ".join(map(str, vals))],
+                              {"kind": "lines_differ_mod", "line": 0, "other": 1, "mod": M}, f"{mod}::mds_multiply/residue",
+                              "mds_multiply differs (as residues) from the product with the public MDS constant for a canonical state "
+                              "(every canonical state reaches mds_multiply through apply_round: the S-box is a bijection)")
+            return Built(singles + [qd], short_fns(exd), [], lift2, note="un-abstracted twin used only to lift a lemma-level counterexample")
+        return Built(qs, short_fns(ex) + [f"abstracted: {x}" for x in ex.abstracted], [val], lift, relift=relift,
                      note="the two mds_multiply_freq calls are replaced by their lemma (fresh results bounded by rowsum*(2^32-1)); by linearity "
                           "L_r + 2^32*H_r = sum_j MDS[r][j]*x_j (paper step)")
     return Obligation(f"c11_mds{n}_multiply_value", "C11",
